@@ -2,6 +2,7 @@ import BlockModes.Thm.C03
 import BlockModes.Thm.C05
 import BlockModes.Lemmas.Core
 import BlockModes.Impl.CfbBuf
+import BlockModes.Thm.C08
 /-
   C14 — alternative front-ends to the same mode are interchangeable.
   (this section) OFB: block encryptor = block decryptor = keystream core; one-shot CFB on whole blocks =
@@ -60,5 +61,52 @@ theorem cts_ecb_eq_map (C : Cipher) (w : Nat) (blocks : List Bytes) :
     impl); in the model the keyed cipher is the value `C` and both constructions are `init C iv`. -/
 theorem key_init_eq_inner_init (C : Cipher) (iv : Bytes) :
     Cbc.init C iv = Cbc.init C iv ∧ Cfb.init C iv = C.enc iv ∧ CfbBuf.init C iv = ⟨Cfb.init C iv, 0⟩ := ⟨rfl, rfl, rfl⟩
+
+/-! ### buffered CFB = block-level CFB = one-shot CFB -/
+
+/-- on a whole number of blocks the buffered encryptor (one call, hence by `C08.cfbbuf_pieces_eq_whole` any
+    chunking) produces exactly what the block-level encryptor produces, for any backend width. -/
+theorem cfbbuf_eq_blocks_enc (C : Cipher) (hC : C.Valid) (w : Nat) (iv : Bytes) (hiv : iv.length = C.bs)
+    (blocks : List Bytes) (hb : AllLen C.bs blocks) :
+    (C08.bufCall false C (CfbBuf.init C iv) blocks.flatten).1 = (Cfb.encBlocks C w (Cfb.init C iv) blocks).1.flatten := by
+  have h := C08.cfbbuf_any_chunking false C hC iv hiv [blocks.flatten]
+  simp only [C08.bufRun, List.flatten_cons, List.flatten_nil, List.append_nil] at h
+  rw [h, RS.init, RS.run_blocks_enc C hC blocks iv hiv hb, Cfb.init, C03.cfb_encBlocks_eq]
+
+theorem cfbbuf_eq_blocks_dec (C : Cipher) (hC : C.Valid) (w : Nat) (iv : Bytes) (hiv : iv.length = C.bs)
+    (blocks : List Bytes) (hb : AllLen C.bs blocks) :
+    (C08.bufCall true C (CfbBuf.init C iv) blocks.flatten).1 = (Cfb.decBlocks C w (Cfb.init C iv) blocks).1.flatten := by
+  have h := C08.cfbbuf_any_chunking true C hC iv hiv [blocks.flatten]
+  simp only [C08.bufRun, List.flatten_cons, List.flatten_nil, List.append_nil] at h
+  rw [h, RS.init, RS.run_blocks_dec C hC blocks iv hiv hb, Cfb.init, C03.cfb_decBlocks_eq]
+
+/-! ### a keystream core driven block-wise = the byte-level cipher on whole blocks -/
+
+theorem core_eq_wrapper {σ : Type} {K : Core σ} {M : Nat} {ks : Nat → Bytes} {Rep : σ → Nat → Prop}
+    (hK : CoreSpec K M ks Rep) (w w' : Nat) (c : σ) (hR : Rep c 0) (blocks : List Bytes)
+    (hb : ∀ b ∈ blocks, b.length = K.bs) (hfit : M = 0 ∨ blocks.length < M - 1 ∨ (blocks.length = 0 ∧ 0 < M)) :
+    ((Wr.fromCore K c).applyUnchecked K w blocks.flatten).1 = (applyBlocks K w' c blocks).1.flatten := by
+  obtain ⟨hI, hq⟩ := fromCore_inv hK c 0 hR
+  have hlen := flatten_length_of_allLen K.bs blocks hb
+  have hfit1 : M = 0 ∨ (Wr.fromCore K c).q K 0 + blocks.flatten.length ≤ (M - 1) * K.bs := by
+    rcases hfit with h | h | h
+    · exact Or.inl h
+    · right; rw [hq, hlen, Nat.zero_mul, Nat.zero_add]; exact Nat.mul_le_mul_right _ (by omega)
+    · right; rw [hq, hlen, h.1]; simp
+  have hfit2 : M = 0 ∨ 0 + blocks.length < M := by
+    rcases hfit with h | h | h
+    · exact Or.inl h
+    · right; omega
+    · right; omega
+  rw [(apply_spec hK w _ 0 blocks.flatten hI hfit1).1, (applyBlocks_spec hK w' c 0 hR blocks hb hfit2).1, hq, hlen]
+
+/-- CTR: `CtrCore::apply_keystream_blocks` = `Ctr*::apply_keystream` on the same whole blocks. -/
+theorem ctr_core_eq_wrapper (C : Cipher) (hC : C.Valid) (hbs : C.bs < 256) (f : Flavor) (hw : f.w = 8 * f.cs)
+    (hcs : 0 < f.cs) (k : Nat) (hk : 0 < k) (iv : Bytes) (hiv : iv.length = k * f.cs) (hblk : C.bs = k * f.cs)
+    (w w' : Nat) (blocks : List Bytes) (hb : ∀ b ∈ blocks, b.length = C.bs) (hn : blocks.length < 2 ^ f.w - 1) :
+    ((Wr.fromCore (Ctr.core C f) (Ctr.init C f iv)).applyUnchecked (Ctr.core C f) w blocks.flatten).1
+      = (applyBlocks (Ctr.core C f) w' (Ctr.init C f iv) blocks).1.flatten :=
+  core_eq_wrapper (ctr_coreSpec C hC hbs f hw hcs k hk iv hiv hblk) w w' _ (ctr_init_rep C f iv) blocks hb
+    (Or.inr (Or.inl hn))
 
 end Thm.C14
